@@ -39,6 +39,8 @@ def cases(tier, seed):
                 case["aggs"] = [rng.choice(["max", "min"])] + case["aggs"][1:]      # a non-default aggregate for count
         if h % 6 == 1 and ncols == 1:
             case["scale"] = 4                            # float64 counts: multiples of 0.25
+        elif h % 7 == 3:
+            case["src_at"] = ["/resolutions/1", "/a/b"][h % 2]     # the source is a level of a multires file / a nested group
         yield "co.coarsen", case
     # the reader-writer lock protocol when coarsening with worker processes INTO THE FILE BEING READ (slow: real pools)
     for h in range(8 if tier == "quick" else 120):
